@@ -407,3 +407,44 @@ Definition buf_write_to (s_buf : gslice) (s_off s_lastRead : Z) (w : unit) (w_m 
     end.
 Definition translated_buf_write_to := true.
 
+(* PrintCtx.ReadFrom  (BOk results state | BRange state | BPanic v state) *)
+Definition buf_read_from (s_buf : gslice) (s_off s_lastRead : Z) (f_isnil : gslice -> bool) (f_growSlice : gslice -> Z -> bres gslice unit) (r : unit) (script_ : list rresp) : bres (Z * err) (bstate * list rresp) :=
+  let n := 0 in
+  let err := ENil in
+  let s_lastRead := 0 in
+  match go_loop_b (S (List.length script_)) (fun st_ => let '(s_buf, n, err, s_off, s_lastRead, script_) := st_ in
+        match buf_grow_int s_buf s_off s_lastRead f_isnil f_growSlice 512 with
+        | BOk r_ st_ => let '(s_buf, s_off, s_lastRead) := st_ in let i := r_ in
+          match sl_to s_buf i with
+          | None => LbEnd (BRange (s_buf, s_off, s_lastRead, script_))
+          | Some r1_ => let s_buf := r1_ in
+            match sl_range s_buf i (sl_cap s_buf) with
+            | None => LbEnd (BRange (s_buf, s_off, s_lastRead, script_))
+            | Some r2_ => match rd_read s_buf script_ r2_ with
+              | BOk r_ st_ => let '(s_buf, script_) := st_ in let '(m, e) := r_ in
+                if (m <? 0)
+                then LbEnd (BPanic p_negread (s_buf, s_off, s_lastRead, script_))
+                else match sl_to s_buf (i + m) with
+                | None => LbEnd (BRange (s_buf, s_off, s_lastRead, script_))
+                | Some r3_ => let s_buf := r3_ in
+                  let n := (n + m) in
+                  if (err_eqb e EEOF)
+                  then LbEnd (BOk ((n, ENil)) (s_buf, s_off, s_lastRead, script_))
+                  else if (negb (err_is_enil e))
+                  then LbEnd (BOk ((n, e)) (s_buf, s_off, s_lastRead, script_))
+                  else LbNext (s_buf, n, err, s_off, s_lastRead, script_)
+                end
+              | BRange st_ => let '(s_buf, script_) := st_ in LbEnd (BRange (s_buf, s_off, s_lastRead, script_))
+              | BPanic p_ st_ => let '(s_buf, script_) := st_ in LbEnd (BPanic p_ (s_buf, s_off, s_lastRead, script_))
+              end
+            end
+          end
+        | BRange st_ => let '(s_buf, s_off, s_lastRead) := st_ in LbEnd (BRange (s_buf, s_off, s_lastRead, script_))
+        | BPanic p_ st_ => let '(s_buf, s_off, s_lastRead) := st_ in LbEnd (BPanic p_ (s_buf, s_off, s_lastRead, script_))
+        end) (s_buf, n, err, s_off, s_lastRead, script_) with
+    | None => BRange (s_buf, s_off, s_lastRead, script_)
+    | Some (LrEnd r_) => r_
+    | Some (LrBreak (s_buf, n, err, s_off, s_lastRead, script_)) => BOk (n, err) (s_buf, s_off, s_lastRead, script_)
+    end.
+Definition translated_buf_read_from := true.
+
